@@ -234,11 +234,11 @@ def run(chk):
                 'all 23 command fields; receiving checked after every PDU; traces compared with the Lean model Dec.run; '
                 'sequences of 2-4 messages back to back through the real provider loop in Sta6 (DT-2) and Sta7 (AR-6), both '
                 'roles, one PDU per segment and everything in one burst: one indication exactly at each last PDU; '
-                'non-trivial = grouping with at least one PDU carrying several PDVs' % (8 if tier == 'quick' else 11))
+                'non-trivial = grouping with at least one PDU carrying several PDVs' % (8 if tier == 'quick' else 12))
     chk.trusted += ['harness/c07.py oracle', 'pydicom dcmread / write_file_meta_info (file readability)']
     chk.assumptions += ['the command-set decoder (pydicom) is a parameter of the model: noDs is the flag the sender set']
     rnd = common.rng('c07')
-    nmax = 8 if tier == 'quick' else 11
+    nmax = 8 if tier == 'quick' else 12
     ncls = len(msgs.classes())
     cases = []
     for c in range(ncls):
@@ -261,7 +261,7 @@ def run(chk):
             groupings = list(compositions(n))
         else:
             groupings = [[1] * n, [n]]
-            for _ in range(40 if tier == 'quick' else 400):
+            for _ in range(40 if tier == 'quick' else 3000):
                 cuts = sorted(rnd.sample(range(1, n), rnd.randrange(1, min(n - 1, 12) + 1)))
                 groupings.append([b - a for a, b in zip([0] + cuts, cuts + [n])])
         for sizes in groupings:
